@@ -257,11 +257,11 @@ theorem escapeLen_split {s : Str} {n : Nat} (h : escapeLen s = some n) :
   · cases h
 
 /-- the closing delimiter of a bracket with `n` equal signs -/
-def bracketClose (n : Nat) : Str := ']' :: (List.replicate n '=' ++ [']'])
+def bracketCloseL (n : Nat) : Str := ']' :: (List.replicate n '=' ++ [']'])
 
 theorem bracketLen_split {s : Str} {L : Nat} (h : bracketLen s = some L) :
-    ∃ n body post, s = ('[' :: (List.replicate n '=' ++ '[' :: (body ++ bracketClose n))) ++ post ∧
-      ('[' :: (List.replicate n '=' ++ '[' :: (body ++ bracketClose n))).length = L := by
+    ∃ n body post, s = ('[' :: (List.replicate n '=' ++ '[' :: (body ++ bracketCloseL n))) ++ post ∧
+      ('[' :: (List.replicate n '=' ++ '[' :: (body ++ bracketCloseL n))).length = L := by
   unfold bracketLen at h
   split at h
   · rename_i rest
@@ -276,14 +276,14 @@ theorem bracketLen_split {s : Str} {L : Nat} (h : bracketLen s = some L) :
       rw [hd, hb] at h1
       generalize spanLen (fun x => x == '=') rest = n at *
       refine ⟨n, pre, post, ?_, ?_⟩
-      · rw [h1]; simp [bracketClose]
-      · simp [bracketClose] at hm' ⊢; omega
+      · rw [h1]; simp [bracketCloseL]
+      · simp [bracketCloseL] at hm' ⊢; omega
     · cases h
   · cases h
 
 theorem bracketCommentLen_split {s : Str} {L : Nat} (h : bracketCommentLen s = some L) :
-    ∃ n body post, s = ('#' :: '[' :: (List.replicate n '=' ++ '[' :: (body ++ bracketClose n))) ++ post ∧
-      ('#' :: '[' :: (List.replicate n '=' ++ '[' :: (body ++ bracketClose n))).length = L := by
+    ∃ n body post, s = ('#' :: '[' :: (List.replicate n '=' ++ '[' :: (body ++ bracketCloseL n))) ++ post ∧
+      ('#' :: '[' :: (List.replicate n '=' ++ '[' :: (body ++ bracketCloseL n))).length = L := by
   unfold bracketCommentLen at h
   split at h
   · rename_i rest
@@ -466,9 +466,9 @@ theorem drop_replicate_append (n : Nat) (a : Char) (rest : Str) :
 
 theorem bracketLen_open (n : Nat) (rest : Str) :
     bracketLen ('[' :: (List.replicate n '=' ++ '[' :: rest)) =
-      (findAfter (bracketClose n) rest).map (· + n + 2) := by
+      (findAfter (bracketCloseL n) rest).map (· + n + 2) := by
   simp only [bracketLen, spanLen_replicate_append '=' '[' n rest (by decide), drop_replicate_append,
-    bracketClose]
+    bracketCloseL]
 
 theorem opensBracket_open (n : Nat) (rest : Str) :
     opensBracket ('[' :: (List.replicate n '=' ++ '[' :: rest)) = true := by
